@@ -290,6 +290,14 @@ Definition dir_of (f : rcb) (l : Z) : tnr := snd (f l).
 (* a callback is honest when it reports `transformed` whenever it changes the label *)
 Definition honest (f : rcb) : Prop := forall l, new_label f l <> l -> flag_of f l = true.
 
+(* the documented call sequence when every callback says Continue: f_down(node), the children left to
+   right, f_up(node) -- f_up sees the label f_down produced *)
+Fixpoint full_log (fd : rcb) (t : tree) : list event :=
+  match t with Node l cs => (PDown, l) :: flat_map (full_log fd) cs ++ [(PUp, new_label fd l)] end.
+
+(* side condition for the Arc<dyn> implementation, which drops unreported changes by design *)
+Definition impl_ok (im : impl) (fd fu : rcb) : Prop := im = IDyn -> honest fd /\ honest fu.
+
 (* ================================================================== CORRESPONDENCE *)
 Definition tnr_eqb (a b : tnr) : bool :=
   match a, b with Continue, Continue | Jump, Jump | Stop, Stop => true | _, _ => false end.
